@@ -53,4 +53,17 @@ theorem regOnce_sound (P : Program) (F : Flags) (n : Nat) (tr : List Label) (c :
     (h : replay P F (init n) tr = some c) : regOnce tr [] = true :=
   regOnce_sound_gen P F tr (init n) c [] (by intro k hk; cases hk) h
 
+set_option maxHeartbeats 1000000 in
+/-- `exec` is entered by `register` only -/
+theorem stepLocal_exec (F : Flags) (o : Obs) (x : Act) (ev : Ev) (y : Act) (eff : Eff)
+    (h : stepLocal F o x ev = some (y, eff)) (hy : y.phase = .exec) : ∃ k, ev = .register k := by
+  step_local_cases h
+  all_goals (first
+    | exact ⟨_, rfl⟩
+    | (exfalso; cases hy; done)
+    | (exfalso; have := stop_mid hy; cases this; done)
+    | (exfalso; have := afterCmd_mid hy; cases this; done)
+    | (exfalso; have := afterDefer_mid hy; cases this; done)
+    | (exfalso; have := next_mid hy; cases this; done))
+
 end TaskModel.Sched
